@@ -45,7 +45,7 @@ CLIENT_MIX = {"C02": "calls", "C03": "chaos,discovery", "C04": "events,calls", "
 
 TIERS = {
     "quick": dict(runs=40, length=160, seeds=1, mc_workers=8, mc_timeout=900),
-    "thorough": dict(runs=300, length=260, seeds=6, mc_workers=16, mc_timeout=3300),
+    "thorough": dict(runs=300, length=260, seeds=3, mc_workers=16, mc_timeout=3300),
 }
 
 
